@@ -206,6 +206,38 @@ def tab14(units, R):
                     ok = arms_ok and shared <= 1
                     why = 'shared only under cJSON_StringIsConst, otherwise a fresh copy' if ok else \
                         'pointer taken from the source without a copy'
+                elif r.get('k') == 'call' and callee_name(r) in u.functions and u.functions[callee_name(r)].static and name == 'string':
+                    # a helper that hands back the source's key only under its constant-key bit and a fresh copy otherwise
+                    h = u.functions[callee_name(r)]
+                    bound = [p for p, a0 in zip(h.params, r['args']) if derives_from_source(a0) and strip_casts(a0).get('k') == 'ref']
+                    hcfg = h.cfg()
+                    ok = bool(bound)
+                    why = 'helper %s: shared only under cJSON_StringIsConst, otherwise a fresh copy' % h.name
+                    for rr in hcfg.returns():
+                        if rr.expr is None:
+                            ok = False
+                            break
+                        x = strip_casts(rr.expr)
+                        if is_null_const(rr.expr) or (x.get('k') == 'call' and callee_name(x) in fresh):
+                            continue
+                        P = bound[0] if bound else None
+                        shared = P is not None and x.get('k') == 'mem' and x['f'] == 'string' and is_ref(x['b']) and \
+                            strip_casts(x['b'])['d'] == P['d']
+
+                        def const_edge(nn, l, P=P):
+                            if nn.kind != 'branch' or l is None or l[0] != 'T' or P is None:
+                                return False
+                            e = strip_casts(nn.expr)
+                            pc = cmp_parts(e)
+                            if pc is not None and pc[2] == 0 and pc[1] == '!=':
+                                e = strip_casts(pc[0])
+                            return e.get('k') == 'bin' and e['op'] == '&' and any('cJSON_StringIsConst' in (y.get('m') or []) for y in walk(e)) and \
+                                any(y.get('k') == 'mem' and y['f'] == 'type' and is_ref(y['b']) and strip_casts(y['b'])['d'] == P['d'] for y in walk(e))
+                        if shared and guarded_by(hcfg, rr.id, const_edge):
+                            continue
+                        ok = False
+                        why = 'helper %s returns %s without a fresh copy and not under cJSON_StringIsConst' % (h.name, expr_str(x)[:40])
+                        break
                 else:
                     why = 'pointer field assigned %s (shares memory with the source)' % expr_str(r)[:50]
                 R.ob('TAB14', fn, a, 'pointer field %s of the copy is independent of the source' % name, ok, why,
